@@ -32,10 +32,12 @@ structure FState where
   nesting : Nat := 0
   backquoted : Bool := false      -- inside a token that started with a backquote
   tokenEnded : Bool := false      -- the previous character closed a quoted segment (a new token starts here)
+  continued : Bool := false       -- the last character written is an escaped newline (the line goes on)
 deriving DecidableEq, Repr
 
 /-- `write(ch)` -/
-def FState.write (s : FState) (ch : Rune) : FState := { s with rout := ch :: s.rout, last := ch }
+def FState.write (s : FState) (ch : Rune) : FState :=
+  { s with rout := ch :: s.rout, last := ch, continued := false }
 
 /-- `for tabs := n; tabs > 0; tabs-- { write('\t') }` -/
 def FState.tabs (s : FState) : Nat → FState
@@ -110,7 +112,9 @@ def stepBrace (s : FState) (spacePrior : Bool) (ch : Rune) : FState :=
         openBrace := true, openBraceSpace := spacePrior && !s.bol, openBraceWritten := false }
   else if ch == rClose && (spacePrior || !s.openBrace) then
     -- if last != '\n' { nextLine() }; if nesting > 0 { nesting-- }; indent(); write('}'); newLines = 0
-    { ((({ (if s.last != rNL then s.nextLine else s) with nesting := s.nesting - 1 }).indent).write rClose) with newLines := 0 }
+    -- (an escaped newline does not end the line: `|| (continued && newLines > 0)`)
+    { ((({ (if s.last != rNL || (s.continued && decide (s.newLines > 0)) then s.nextLine else s) with
+            nesting := s.nesting - 1 }).indent).write rClose) with newLines := 0 }
   else stepWord s spacePrior ch
 
 /-- `if openBrace && spacePrior && !openBraceWritten { … }` (218) -/
@@ -137,7 +141,9 @@ def stepLiteral (s : FState) (ch : Rune) : FState :=
   else if s.escaped then
     -- an escaped newline (outside quotes) separates tokens like white space
     { ((if ch == rLT then { s with heredocEscaped := true } else s).write ch) with
-        escaped := false, space := (if ch == rNL && !s.quoted then true else s.space) }
+        escaped := false, space := (if ch == rNL && !s.quoted then true else s.space),
+        continued := ch == rNL && !s.quoted,
+        heredocEscaped := (if ch == rNL && !s.quoted then false else (ch == rLT || s.heredocEscaped)) }
   else if ch == rBS && s.quoted then
     { s.write ch with escaped := true }
   else if s.quoted then
